@@ -345,8 +345,6 @@ UAddEdge(S, u, v, force, top) == Finish(UAddEdgeBody(S, u, v, force), top, 0)
 UAddNodeBody(S, a, ord) ==
     IF a.t = NoT \/ a.tid = None THEN Fail(S, "InvalidActionError")
     ELSE IF Has(S, a.n) THEN Fail(S, "InvalidActionError")
-    \* fix F7/F8: a node without pixels needs a position - checked before any edit
-    ELSE IF Fix("F7") /\ a.pxnone /\ a.pos = NoPos THEN Fail(S, "ValueError")
     ELSE
       LET tid  == IF HasTidAt(S, a.tid, a.t) THEN S.maxT + 1 ELSE a.tid
           pred == TrackPred(S, tid, a.t)
@@ -356,6 +354,8 @@ UAddNodeBody(S, a, ord) ==
           upDiv   == pred # None /\ OutDeg(S, pred) = 2
           downDiv == ~upDiv /\ succ # None /\ pos # None /\ OutDeg(S, pos) = 2
       IN IF (upDiv \/ downDiv) /\ ~a.force THEN Fail(S, "InvalidActionError!")
+         \* fix F7/F8: a node without pixels needs a position - checked before the first edit
+         ELSE IF Fix("F7") /\ a.pxnone /\ a.pos = NoPos THEN Fail(S, "ValueError")
          ELSE
            LET r0 == IF upDiv THEN
                         LET ss == SortedSeq(Succs(S, pred))
@@ -401,11 +401,11 @@ UDelNodeSuccs(r, n, ss, keep) ==
              r2 == IF Fix("F4") /\ keep = 0
                    THEN Then(r1, LAMBDA s : PUpdTids(s, c, s.tid[c], s.maxL + 1)) ELSE r1
          IN UDelNodeSuccs(r2, n, Tail(ss), IF keep > 0 THEN keep - 1 ELSE 0)
-UDelNodeBody(S, n, px, pxnone) ==
+UDelNodeBody(S, n, px, pxnone, ord) ==
     IF ~Has(S, n) THEN Fail(S, "NetworkXError")
     ELSE
       LET prs  == SortedSeq(Preds(S, n))
-          scs  == SortedSeq(Succs(S, n))
+          scs  == IF ord = 1 THEN SortedSeq(Succs(S, n)) ELSE RevSeq(SortedSeq(Succs(S, n)))
           tid  == S.tid[n]
           p    == TrackPred(S, tid, S.time[n])
           c    == TrackSucc(S, tid, S.time[n])
@@ -419,7 +419,7 @@ UDelNodeBody(S, n, px, pxnone) ==
           \* lookup nor the times change in between
           r3   == When(join, r2, LAMBDA s : PAddEdge(s, p, c, NoAttrs))
       IN Then(r3, LAMBDA s : PDelNode(s, n, px, pxnone))
-UDelNode(S, n, px, pxnone, top) == Finish(UDelNodeBody(S, n, px, pxnone), top, 0)
+UDelNode(S, n, px, pxnone, ord, top) == Finish(UDelNodeBody(S, n, px, pxnone, ord), top, 0)
 
 \* ---- UserSwapPredecessors ----------------------------------------------
 USwap(S, a, b) ==
@@ -453,7 +453,7 @@ UPaintOld(r, labels, stroke, old) ==
              px == {q \in stroke : old[q] = l}
              t  == FrameOf(CHOOSE q \in px : TRUE)
              r1 == IF MaskIn(r.s, l, t) = {}
-                   THEN Then(r, LAMBDA s : Sub(UDelNodeBody(s, l, px, FALSE)))
+                   THEN Then(r, LAMBDA s : Sub(UDelNodeBody(s, l, px, FALSE, 1)))
                    ELSE Then(r, LAMBDA s : PUpdSeg(s, l, px, FALSE))
          IN UPaintOld(r1, Tail(labels), stroke, old)
 \* S already carries the painted array; old = S.seg before painting
